@@ -40,6 +40,9 @@ func genCase(t *rapid.T, withInvalid bool) *Case {
 	}
 	c.UserOpts = rapid.SampledFrom([]int{0, 0, 0, 0, 1, 2, 3, 4}).Draw(t, "userOpts")
 	c.NoDialFunc = rapid.IntRange(0, 9).Draw(t, "noDialFunc") == 0
+	if rapid.IntRange(0, 5).Draw(t, "extClose") == 0 {
+		c.ExtClose = rapid.IntRange(1, 4).Draw(t, "extCloseWhich")
+	}
 	for i := range EPNames {
 		if rapid.IntRange(0, 3).Draw(t, "startDown") == 0 {
 			c.StartDown = append(c.StartDown, i)
